@@ -138,14 +138,52 @@ Proof.
   now apply py_int_dec.
 Qed.
 
-Theorem ppid_map_roundtrip ps :
-  forallb wf_kproc ps = true -> ppid_map (map proc_entry ps) = Val (spec_ppid_map ps).
+(* ppid_map() over ANY /proc listing: processes (any names; present, vanished or
+   unreadable) and non-numeric entries in any order *)
+Theorem ppid_map_roundtrip es :
+  forallb wf_kentry es = true -> ppid_map (map entry_of es) = Val (spec_ppid_map es).
 Proof.
-  induction ps as [|p ps IH]; [reflexivity|]. cbn [forallb]. intros H.
-  apply andb_true_iff in H as [Hp Hps]. specialize (IH Hps).
-  cbn [map ppid_map spec_ppid_map]. unfold proc_entry at 1.
-  destruct (p_gone p); [exact IH|].
-  unfold wf_kproc in Hp. apply andb_true_iff in Hp as [Hw Hd].
-  destruct (fld 4 (p_stat p)) as [d|] eqn:F4; [|discriminate].
-  rewrite (ppid_of_stat_spec _ d) by assumption. cbn [obind]. rewrite IH. reflexivity.
+  induction es as [|e es IH]; [reflexivity|]. cbn [forallb]. intros H.
+  apply andb_true_iff in H as [He Hes]. specialize (IH Hes).
+  destruct e as [p|n f]; cbn [map entry_of ppid_map spec_ppid_map wf_kentry] in *.
+  - apply andb_true_iff in He as [He Hd]. apply andb_true_iff in He as [Hn Hw]. rewrite Hn.
+    destruct (fld 4 (p_stat p)) as [d|] eqn:F4; [|discriminate].
+    destruct (p_state p); try exact IH.
+    rewrite (ppid_of_stat_spec _ d) by assumption. cbn [obind]. rewrite IH. reflexivity.
+  - apply negb_true_iff in He. rewrite He. exact IH.
 Qed.
+
+(* pids(): exactly the process entries *)
+Theorem pids_exact es :
+  forallb wf_kentry es = true -> pids (map fst (map entry_of es)) = spec_pids es.
+Proof.
+  unfold pids. induction es as [|e es IH]; [reflexivity|]. cbn [forallb]. intros H.
+  apply andb_true_iff in H as [He Hes]. specialize (IH Hes).
+  destruct e as [p|n f]; cbn [map entry_of fst filter spec_pids wf_kentry] in *.
+  - apply andb_true_iff in He as [He _]. apply andb_true_iff in He as [Hn _]. rewrite Hn.
+    cbn [map]. now rewrite IH.
+  - apply negb_true_iff in He. rewrite He. exact IH.
+Qed.
+
+(* every reported pair belongs to a listed process (no pid invented, none duplicated by the parser) *)
+Theorem ppid_map_subset es :
+  incl (map fst (spec_ppid_map es)) (spec_pids es).
+Proof.
+  induction es as [|e es IH]; [apply incl_refl|].
+  destruct e as [p|n f]; cbn [spec_ppid_map spec_pids]; [|exact IH].
+  destruct (p_state p), (fld 4 (p_stat p)); cbn [map fst];
+    try (apply incl_tl; exact IH).
+  apply incl_cons; [now left|]. apply incl_tl. exact IH.
+Qed.
+
+Definition ex_entries : list kentry :=
+  [ KOther (bs "self") TGone; KOther (bs "stat") (TContent (bs "cpu  1 2 3"));
+    KProc {| p_name := bs "1"; p_stat := ex_short 52; p_state := PPresent |};
+    KOther (bs "12x") TDenied;
+    KProc {| p_name := bs "4242"; p_stat := ex_kstat; p_state := PPresent |};
+    KProc {| p_name := bs "77"; p_stat := ex_short 39; p_state := PGone |};
+    KProc {| p_name := bs "78"; p_stat := ex_short 39; p_state := PDenied |} ].
+Example ex_entries_wf :
+  forallb wf_kentry ex_entries = true /\ spec_ppid_map ex_entries = [(1, 7); (4242, 7)]
+  /\ spec_pids ex_entries = [1; 4242; 77; 78].
+Proof. vm_compute. repeat split; reflexivity. Qed.
